@@ -381,7 +381,7 @@ def build_conversation(rnd, nex=6, fault_p=0.45, cfg=None, chunking=None, faults
     # now and then a cache with hundreds of records: responses cross the client's PDU-store growth steps (100, 200, ...)
     cache = Cache(rnd, ver=cfg.get("ver", rnd.choice([1, 1, 1, 0])), big=cfg.get("big", rnd.random() < 0.06))
     cache.ivals = cfg.get("ivals", (rnd.choice([0, 1, 3600, 86400, 86401, 2 ** 32 - 1]), rnd.choice([0, 1, 600, 7200, 7201]),
-                                    rnd.choice([599, 600, 7200, 172800, 172801])))
+                                    rnd.choice([599, 600, 7200, 172800, 172801, 2 ** 31, 2 ** 32 - 1])))   # accept-any mode: last_update + expire passes 2^32
     if pre:
         for _ in range(rnd.randint(0, 3)):
             it = rnd.choice([x for x in cache.pool if not (x[0] == "k" and x[1][1] >= LATE_KEYS)] or cache.pool[:1])
